@@ -27,7 +27,7 @@ func variantID(g *vlib.G, v int) int {
 }
 
 func bigCfg() solveCfg {
-	return solveCfg{nrhs: []int{1, 3}, breps: []string{"dense", "trans", "user"}, vreps: []string{"vec", "vecinc", "uservec"}, dsts: []string{"empty", "alias"}}
+	return solveCfg{nrhs: []int{1, 3}, breps: []string{"dense", "trans", "user"}, vreps: []string{"vec", "vecinc", "uservec"}, dsts: []string{"empty", "alias", "aliasT"}}
 }
 
 func genLU(g *vlib.G) {
